@@ -410,6 +410,11 @@ def convert_number(h: Any, which: str, args: List[AV], node: Any) -> AV:
         r = h.ctx.choose((which, "of-str", v.id), ["ok", "ValueError"])
         if r != "ok":
             raise h.raise_("ValueError", f"invalid literal for {which}()", node)
+        if which == "int" and isinstance(v, SymStr):
+            # CPython refuses decimal strings of more than sys.int_max_str_digits (4300) digits with a ValueError
+            big = h.ctx.choose(("int-digit-limit", v.id), ["ok", "ValueError"])
+            if big != "ok":
+                raise h.raise_("ValueError", "Exceeds the limit (4300 digits) for integer string conversion", node)
         key = (which, v.id)
         if key not in h.conversions:
             h.conversions[key] = h.i.new_int(f"int({v.label})") if which == "int" else Term("float", (v,), h.ctx.new_id())
